@@ -70,6 +70,11 @@ def gen_ops(rng, kind, init, n):
                 ops[-1][3] = s2
                 decl = ops.pop()
                 ops.append(["uresolve", s2]); ops.append(decl); ops.append(["uresolve", s2])
+            elif ops[-1][0] in ("udefine", "ualias", "uderive") and rng.random() < 0.12:
+                # a symbol whose code points are not in Unicode normal form (ANGSTROM SIGN, OHM SIGN, KELVIN SIGN, combining accent)
+                s3 = "vf" + rng.choice(["\u212b", "\u2126", "\u212a", "e\u0301", "\u1e9b\u0323"]) + fr("u")[3:]
+                ops[-1][3] = s3
+                ops.append(["uresolve", s3, False])
             elif ops[-1][0] in ("udefine", "ualias", "uderive") and ops[-1][3] and " " not in ops[-1][3]:
                 ops.append(["uresolve", ops[-1][3]])
             for x in [y for o in ops[-3:] for y in o[1:]]:
@@ -146,6 +151,10 @@ def main():
                 # ---- the property's own observables on the implementation
                 d = rec["diff"]
                 changed = d["byn"] or d["bys"] or d["nm"] or d["sy"]
+                if rec.get("dups"):
+                    c.violation(f"twoclaim:{kind}", f"after {op} the name/symbol {rec['dups']} is claimed by two different objects", {"kind": kind, "ops": ops[:i + 1]})
+                if rec.get("unreported"):
+                    c.violation(f"bound-not-reported:{kind}", f"after {op} {rec['unreported']} is bound to an object that does not report it", {"kind": kind, "ops": ops[:i + 1]})
                 if op[0] == "uresolve":
                     # a lookup never changes names or symbols, and after a successful declaration of this symbol it returns that object
                     if changed:
